@@ -8,6 +8,8 @@ package quic_test
 
 import (
 	"context"
+	"crypto/hmac"
+	"crypto/sha256"
 	"encoding/json"
 	"errors"
 	"fmt"
@@ -26,6 +28,7 @@ import (
 	"github.com/refraction-networking/uquic/internal/verifmc/sim"
 	"github.com/refraction-networking/uquic/internal/verifmc/wiremon"
 	"github.com/refraction-networking/uquic/qlogwriter"
+	"github.com/refraction-networking/uquic/testutils/simnet"
 	tls "github.com/refraction-networking/utls"
 )
 
@@ -61,7 +64,13 @@ type c17Config struct {
 	Kind   string       `json:"kind"`
 	Faults sim.FaultMap `json:"faults"`         // applied from the moment of the cause
 	Hist   string       `json:"hist,omitempty"` // one of c17Hists (causes after the handshake only)
-	Seed   uint64       `json:"seed"`
+	// stateless reset only. 0: the server comes back as this implementation (which answers packets
+	// of more than 42 bytes with resets of exactly 42 bytes). N > 0: the peer that comes back with
+	// the same static reset key is another RFC 9000 endpoint, played by the harness: it answers a
+	// datagram of L bytes with a stateless reset of min(N, L-1) bytes (RFC 9000 10.3: smaller than
+	// the packet it answers) and stays silent when that would be below the 21 byte minimum
+	RSize int    `json:"rsize,omitempty"`
+	Seed  uint64 `json:"seed"`
 }
 
 func (c c17Config) String() string {
@@ -72,6 +81,9 @@ func (c c17Config) String() string {
 	h := ""
 	if c.Hist != "" {
 		h = " history=" + c.Hist
+	}
+	if c.RSize > 0 {
+		h += fmt.Sprintf(" peer-resets<=%dB", c.RSize)
 	}
 	return fmt.Sprintf("%s calls=[%s] when=%d %s %s faults=%v%s", c17Causes[c.Cause], strings.Join(cs, ","), c.When, c17Timings[c.Timing].Name, c.Kind, c.Faults, h)
 }
@@ -123,11 +135,28 @@ func c17Run(t *testing.T, cfg c17Config) c17Result {
 		if err != nil {
 			t.Fatal(err)
 		}
-		kind := sim.Plain
-		if cfg.Kind == "chrome115" {
-			kind = sim.Parrot("chrome115", quic.QUICChrome_115)
+		// client kinds: "plain" = a Transport (4 byte source connection IDs: stateless resets are
+		// recognised by the Transport), "dial0" = the single-use Transport quic.Dial sets up
+		// (zero-length source connection IDs: every datagram of the socket goes to the connection,
+		// which has to recognise a stateless reset itself), "chrome115" / "firefox116" = UTransport
+		// with a browser spec (zero-length / 3 byte source connection IDs)
+		var d sim.Dialer
+		var cep *simnet.SimConn
+		switch cfg.Kind {
+		case "dial0":
+			cep = w.NewClientEndpoint()
+			tr, err := quic.VerifDialTransport(cep, w.ClientTLS())
+			if err != nil {
+				t.Fatal(err)
+			}
+			d = tr
+		case "chrome115":
+			d, cep, _ = w.NewDialer(sim.Parrot("chrome115", quic.QUICChrome_115))
+		case "firefox116":
+			d, cep, _ = w.NewDialer(sim.Parrot("firefox116", quic.QUICFirefox_116))
+		default:
+			d, cep, _ = w.NewDialer(sim.Plain)
 		}
-		d, cep, _ := w.NewDialer(kind)
 		var wg sync.WaitGroup
 		var sconn *quic.Conn
 		acceptOne := func(ln *quic.Listener) chan struct{} {
@@ -373,10 +402,19 @@ func c17Run(t *testing.T, cfg c17Config) c17Result {
 			teardown(conn)
 			return
 		}
+		clientCIDLen, _, _ := wiremon.ClientCIDLen(w.Router.FullLog()[logStart:])
+		switch cfg.Kind { // the connection ID regime each client kind stands for
+		case "dial0", "chrome115":
+			explore.Must(clientCIDLen == 0, "client kind %s uses %d byte source connection IDs", cfg.Kind, clientCIDLen)
+		case "plain", "firefox116":
+			explore.Must(clientCIDLen > 0, "client kind %s uses zero-length source connection IDs", cfg.Kind)
+		}
 		// blocked calls
 		results := make([]*c17CallResult, 0, len(cfg.Calls))
 		var cwg sync.WaitGroup
 		var rmu sync.Mutex
+		var resets []c17ResetSent // what the harness-played stateless peer sent (RSize > 0)
+		resetSize := 0
 		blocked := func(name string, f func() error) {
 			r := &c17CallResult{Name: name}
 			results = append(results, r)
@@ -570,6 +608,37 @@ func c17Run(t *testing.T, cfg c17Config) c17Result {
 			time.Sleep(50 * time.Millisecond)
 			w.Router.SetBlackhole(sim.C2S, false)
 			w.Router.SetBlackhole(sim.S2C, false)
+			if cfg.RSize > 0 {
+				// What comes back on the server's address is not this implementation but another RFC 9000
+				// endpoint configured with the same static key (RFC 9000 10.3.2: it derives the same token
+				// from a connection ID). It has no state, so it answers every short-header datagram of L
+				// bytes with a stateless reset: 0b01 and unpredictable bits, then the token for the
+				// destination connection ID of that datagram; min(RSize, L-1) bytes long, so that the
+				// reset is smaller than the packet it answers, and nothing if that is less than 21 bytes.
+				scidLen, ok := c17ServerCIDLen(w.Router.FullLog()[logStart:])
+				if !ok {
+					fail("setup", "cannot read the server's connection ID length off the wire")
+					break
+				}
+				w.Router.SetOnSend(func(ev sim.Event) {
+					if ev.Dir != sim.C2S || ev.Injected || ev.Fate == sim.Drop || len(ev.Data) < 1+scidLen || ev.Data[0]&0x80 != 0 {
+						return
+					}
+					n := min(cfg.RSize, len(ev.Data)-1)
+					if n < 21 {
+						return
+					}
+					rmu.Lock()
+					pkt := c17StatelessReset(resetKey, ev.Data[1:1+scidLen], n, len(resets))
+					resets = append(resets, c17ResetSent{At: ev.T + 2*sim.OneWay, Size: n, Answers: len(ev.Data)})
+					rmu.Unlock()
+					w.Router.Inject(w.ServerAddr, cep.LocalAddr(), pkt, sim.OneWay) // the client's datagram arrives, the reset travels back
+				})
+				tCause = since()
+				// provoke a full-size packet from the client, so that a reset of every size of the alphabet may answer it
+				go held[0].Write(make([]byte, 1300))
+				break
+			}
 			ln2, err := w.ListenWith(w.ServerTLS(false), sconf, func(tr *quic.Transport) { tr.StatelessResetKey = &resetKey })
 			if err != nil {
 				t.Fatal(err)
@@ -588,6 +657,7 @@ func c17Run(t *testing.T, cfg c17Config) c17Result {
 		}
 		tEnd := since()
 		recorded := context.Cause(conn.Context())
+		w.Router.SetOnSend(nil)
 		if os.Getenv("VERIF_DEBUG") != "" {
 			for _, e := range w.Router.FullLog() {
 				if e.T >= tCause-time.Millisecond {
@@ -670,6 +740,25 @@ func c17Run(t *testing.T, cfg c17Config) c17Result {
 			}
 		case "stateless-reset":
 			var sr *quic.StatelessResetError
+			if cfg.RSize > 0 {
+				// a stateless reset (at least 21 bytes, ending in the token of the connection ID the client
+				// uses) reached the client: that is the end of the connection, whatever the size of the reset
+				rmu.Lock()
+				rs := append([]c17ResetSent(nil), resets...)
+				rmu.Unlock()
+				if len(rs) == 0 {
+					fail("setup", "the client sent nothing the stateless peer could answer")
+				} else if !errors.As(recorded, &sr) || tEnd > rs[0].At+2*sim.OneWay+10*time.Millisecond {
+					var l []string
+					for _, r := range rs {
+						l = append(l, fmt.Sprintf("%dB at %v (answering %dB)", r.Size, r.At, r.Answers))
+					}
+					fail("reset-not-honoured:"+cfg.Kind, "the peer lost its state and answered the client (%d byte source connection IDs) with valid stateless resets, delivered as %v; the connection ended at %v with %v", clientCIDLen, l, tEnd, recorded)
+				}
+				if len(rs) > 0 {
+					resetSize = rs[0].Size
+				}
+			}
 			if !errors.As(recorded, &sr) {
 				fail("wrong-cause", "recorded cause %v, want a stateless reset", recorded)
 			}
@@ -744,6 +833,9 @@ func c17Run(t *testing.T, cfg c17Config) c17Result {
 		if cfg.Hist != "" {
 			res.class += " history=" + cfg.Hist
 		}
+		if cfg.RSize > 0 {
+			res.class += fmt.Sprintf(" client-cid=%dB first-reset=%dB", clientCIDLen, resetSize)
+		}
 		res.ndgrams = w.Router.Count(sim.C2S) + w.Router.Count(sim.S2C)
 		_ = net.IPv4zero
 		teardown(conn)
@@ -754,6 +846,47 @@ func c17Run(t *testing.T, cfg c17Config) c17Result {
 	return res
 }
 
+type c17ResetSent struct {
+	At      time.Duration // delivery to the client
+	Size    int
+	Answers int // size of the datagram it answers
+}
+
+// c17ServerCIDLen reads the length of the connection IDs the server issues off its first
+// long-header packet (the client's short-header packets carry a connection ID of that length).
+func c17ServerCIDLen(events []sim.Event) (int, bool) {
+	for _, ev := range events {
+		d := ev.Data
+		if ev.Dir != sim.S2C || ev.Injected || len(d) < 7 || d[0]&0x80 == 0 {
+			continue
+		}
+		dl := int(d[5])
+		if len(d) < 7+dl {
+			continue
+		}
+		return int(d[6+dl]), true
+	}
+	return 0, false
+}
+
+// c17StatelessReset builds the stateless reset of RFC 9000 10.3 an endpoint with the static key
+// sends for a connection ID: n bytes, first two bits 01, unpredictable bits, the last 16 bytes the
+// token (10.3.2: HMAC of the connection ID under the static key, as this implementation's
+// Transport.StatelessResetKey does). ctr makes the unpredictable bits differ between resets.
+func c17StatelessReset(key quic.StatelessResetKey, connID []byte, n, ctr int) []byte {
+	h := hmac.New(sha256.New, key[:])
+	h.Write(connID)
+	token := h.Sum(nil)[:16]
+	out := make([]byte, 0, n)
+	for blk := 0; len(out) < n-16; blk++ {
+		sum := sha256.Sum256([]byte(fmt.Sprintf("c17 unpredictable bits %d %d", ctr, blk)))
+		out = append(out, sum[:]...)
+	}
+	out = out[:n-16]
+	out[0] = out[0]&0x3f | 0x40
+	return append(out, token...)
+}
+
 func c17Transport(d sim.Dialer) *quic.Transport {
 	switch x := d.(type) {
 	case *quic.Transport:
@@ -762,6 +895,21 @@ func c17Transport(d sim.Dialer) *quic.Transport {
 		return x.Transport
 	}
 	return nil
+}
+
+// c17ResetSizes: the largest stateless reset the harness-played peer sends (it stays below the
+// size of the packet it answers): the RFC 9000 minimum and its neighbour, sizes below, at and
+// just above the 42 / 43 bytes around which RFC 9000 10.3 and this implementation's own sender
+// change behaviour, and large ones.
+func c17ResetSizes(thorough bool) []int {
+	if !thorough {
+		return []int{21, 22, 30, 41, 42, 43, 100, 1200}
+	}
+	var out []int
+	for n := 21; n <= 48; n++ {
+		out = append(out, n)
+	}
+	return append(out, 64, 100, 300, 1200, 1500)
 }
 
 func c17Subsets(n, maxSize int) [][]int {
@@ -832,6 +980,30 @@ func c17Configs(e explore.Env) ([]c17Config, string) {
 					cfgs = append(cfgs, c17Config{Cause: ci, Calls: []int{0, 1, 4}, When: 1, Timing: ti, Kind: "plain", Seed: seed})
 				}
 				cfgs = append(cfgs, c17Config{Cause: ci, Calls: []int{0, 2, 5}, When: 1, Timing: 0, Kind: "chrome115", Seed: seed})
+				// the other connection ID regimes: the zero-length IDs of quic.Dial, a spec with non-empty IDs
+				for _, k := range []string{"dial0", "firefox116"} {
+					for when := 0; when < 3; when++ {
+						cfgs = append(cfgs, c17Config{Cause: ci, Calls: []int{0, 2, 5}, When: when, Timing: 0, Kind: k, Seed: seed})
+					}
+				}
+				// stateless resets as another RFC 9000 peer sends them: every size class from the 21 byte
+				// minimum to a full packet (this implementation's own are 42 bytes), each client kind
+				// (where a reset is recognised depends on the client's connection ID length), each position
+				if cause == "stateless-reset" {
+					rsets := [][]int{{}, {0, 2, 5}, {1, 3, 4}, {0, 1, 4}}
+					if e.Thorough() {
+						rsets = append(c17Subsets(len(c17Calls), 1), rsets[1:]...)
+					}
+					for _, k := range []string{"plain", "dial0", "chrome115", "firefox116"} {
+						for _, n := range c17ResetSizes(e.Thorough()) {
+							for _, set := range rsets {
+								for when := 0; when < 3; when++ {
+									cfgs = append(cfgs, c17Config{Cause: ci, Calls: set, When: when, Timing: 0, Kind: k, RSize: n, Seed: seed})
+								}
+							}
+						}
+					}
+				}
 				// the connection's history: a resumed connection whose 0-RTT data was accepted / was rejected
 				// (the application went on with NextConnection), then used and ended like any other
 				for _, h := range c17Hists[1:] {
@@ -852,7 +1024,7 @@ func c17Configs(e explore.Env) ([]c17Config, string) {
 				}
 			}
 		}
-		return cfgs, fmt.Sprintf("close causes {local close, remote close, idle timeout, Transport.Close, stateless reset, fatal transport error (an authentic 1-RTT packet with STREAM data on a send-only stream)} x every set of <= %d concurrently blocked client calls out of %v x 3 positions (right after the handshake, 300 ms later, during a server-to-client transfer) + timing configurations + spec-driven client + 1 fault on the closing exchange + connection histories {resumed with DialEarly and 0-RTT accepted (streams opened and written before the handshake completes), 0-RTT rejected and the application went on with NextConnection} x every set of <= %d blocked calls and 3 sets of 3 x 3 positions; handshake timeout (silent peer) and dial cancellation at each of the first 8 datagrams; Transport.Close while Dial is in flight (from inside the Tracer callback, after the first datagram, 20 ms later); keep-alive answered for 5 idle periods then path death; path death while the application keeps writing every quarter idle period (3 timing configurations x plain/spec-driven x 2 call sets)", maxSet, c17Calls, histSet)
+		return cfgs, fmt.Sprintf("close causes {local close, remote close, idle timeout, Transport.Close, stateless reset, fatal transport error (an authentic 1-RTT packet with STREAM data on a send-only stream)} x every set of <= %d concurrently blocked client calls out of %v x 3 positions (right after the handshake, 300 ms later, during a server-to-client transfer) + timing configurations + spec-driven client (Chrome 115) + the quic.Dial client (zero-length source connection IDs) and the Firefox 116 spec (3 byte IDs) x 3 positions + 1 fault on the closing exchange + stateless resets sent by another RFC 9000 endpoint with the same static key (played by the harness: answers a datagram of L bytes with a reset of min(N, L-1) >= 21 bytes), N in %v x client kind {Transport, quic.Dial, Chrome 115 spec, Firefox 116 spec} x %d sets of blocked calls x 3 positions + connection histories {resumed with DialEarly and 0-RTT accepted (streams opened and written before the handshake completes), 0-RTT rejected and the application went on with NextConnection} x every set of <= %d blocked calls and 3 sets of 3 x 3 positions; handshake timeout (silent peer) and dial cancellation at each of the first 8 datagrams; Transport.Close while Dial is in flight (from inside the Tracer callback, after the first datagram, 20 ms later); keep-alive answered for 5 idle periods then path death; path death while the application keeps writing every quarter idle period (3 timing configurations x plain/spec-driven x 2 call sets)", maxSet, c17Calls, c17ResetSizes(e.Thorough()), map[bool]int{false: 4, true: 14}[e.Thorough()], histSet)
 	}
 }
 
